@@ -28,7 +28,12 @@ def _same_args(c, v):
     ua = c.a_extra_args
     if v is ua or (isinstance(ua, Opt) and v is ua.val):
         return True
-    return isinstance(v, Ref) and c.new.obj(v).kind == 'dict' and not c.new.obj(v).items
+    if not isinstance(v, Ref):
+        return False
+    h = c.new.obj(v)
+    if h.kind == 'smap':      # the fresh {} standing in for None, seen through a callee's map view
+        return v.oid not in c.old.st.heap and h.meta['present'].eq(z3.K(z3.StringSort(), z3.BoolVal(False)))
+    return h.kind == 'dict' and not h.items
 
 
 def register(R):
